@@ -131,9 +131,9 @@ def build_modelx():
         shutil.rmtree(outdir, ignore_errors=True)
         raise RuntimeError('extraction (with decision predicates) failed\n' + log[-2000:] + r.stdout[-3000:])
     src = open(glue).read()
-    assert 'module M = Model\n' in src and 'let ls_hook : (M.state -> bool * bool * bool list) option = None' in src
+    assert 'module M = Model\n' in src and 'let ls_hook : (M.state -> bool * bool * bool list * bool) option = None' in src
     src = src.replace('module M = Model\n', 'module M = Modelx\n').replace(
-        'let ls_hook : (M.state -> bool * bool * bool list) option = None', 'let ls_hook : (M.state -> bool * bool * bool list) option = Some (fun s -> (M.ls_ok_x s, M.ls4_ok_x s, M.ls_flags_x s))')
+        'let ls_hook : (M.state -> bool * bool * bool list * bool) option = None', 'let ls_hook : (M.state -> bool * bool * bool list * bool) option = Some (fun s -> (M.lsn_ok_x s, M.ls4n_ok_x s, M.lsn_flags_x s, M.ls_ok_x s))')
     assert 'let cert_hook : (M.n list -> bool * bool list) option = None' in src
     src = src.replace('let cert_hook : (M.n list -> bool * bool list) option = None', 'let cert_hook : (M.n list -> bool * bool list) option = Some (fun f -> (M.cert_ok_x f, M.cert_flags_x f))')
     open(os.path.join(outdir, 'model_main.ml'), 'w').write(src)
